@@ -8,7 +8,8 @@
 (*   G3Range   <<lo,hi>> and G3List <<ids>>: precedence graphs over 3      *)
 (*             relations (id = base-4 digits = label of edge s->t at digit *)
 (*             3*(s-1)+(t-1)); G3Both: both renderings, else one chosen by *)
-(*             the digit sum                                               *)
+(*             the digit sum; G3Canon: of the range keep only the least id *)
+(*             of every class of graphs equal up to renaming the relations *)
 (*   Shapes    BOOLEAN  all clause shapes: a head over a non-empty subset  *)
 (*             of {x,y,z} and 1..3 body literals of the alphabet ShapeLits *)
 (*   GenPrograms  seq of generator programs (vf/gen.py), each possibly     *)
@@ -39,6 +40,14 @@ RName(i) == "r" \o ToString(i)
 Lab(g, n, s, t) == (g \div Pow4[n * (s - 1) + (t - 1) + 1]) % 4
 DigitSum(g, n) == LET RECURSIVE go(_) go(k) == IF k > n * n THEN 0 ELSE ((g \div Pow4[k]) % 4) + go(k + 1) IN go(1)
 AutoMode(g, n) == IF DigitSum(g, n) % 2 = 0 THEN "split" ELSE "bundle"
+\* renaming the three relations by a permutation pi maps graph g to the graph whose edge pi[s]->pi[t] carries the label of s->t;
+\* a graph is canonical when it has the least id of its isomorphism class
+Perms3 == {<<1, 2, 3>>, <<1, 3, 2>>, <<2, 1, 3>>, <<2, 3, 1>>, <<3, 1, 2>>, <<3, 2, 1>>}
+PermId(g, pi) == LET RECURSIVE go(_) go(e) == IF e > 9 THEN 0 ELSE
+                         LET s1 == ((e - 1) \div 3) + 1  t1 == ((e - 1) % 3) + 1
+                         IN Lab(g, 3, s1, t1) * Pow4[3 * (pi[s1] - 1) + (pi[t1] - 1) + 1] + go(e + 1)
+                 IN go(1)
+IsCanonical(g) == \A pi \in Perms3 : PermId(g, pi) >= g
 EdgeLit(s, lab, mode) ==
     CASE lab = 1 -> Atom(RName(s), <<V("x")>>)
       [] lab = 2 -> Neg(RName(s), <<V("x")>>)
@@ -91,7 +100,8 @@ ShapeProg(hi, T) ==
 VARIABLES fam, a, m, S
 vars == <<fam, a, m, S>>
 Init == \/ G2 /\ fam = "g2" /\ a \in 0..255 /\ m \in {"split", "bundle"} /\ S = {}
-        \/ /\ fam = "g3" /\ a \in (G3Range[1]..G3Range[2]) \cup SeqSet(G3List) /\ S = {}
+        \/ /\ fam = "g3" /\ S = {}
+           /\ a \in {x \in G3Range[1]..G3Range[2] : ~G3Canon \/ IsCanonical(x)} \cup SeqSet(G3List)
            /\ m \in (IF G3Both THEN {"split", "bundle"} ELSE {AutoMode(a, 3)})
         \/ Shapes /\ fam = "shape" /\ a \in 1..Len(ShapeHeads) /\ m = "-" /\ S \in ShapeSets
         \/ fam = "gen" /\ a \in 1..Len(GenPrograms) /\ m = "-" /\ S = {}
